@@ -104,7 +104,15 @@ def run_groups(ctx, pool, groups, tag, stats, shrink_budget, futs=None):
                 stats["engine_errors"][str(tuple(ea["err"]))] = stats["engine_errors"].get(str(tuple(ea["err"])), 0) + 1
             if len(ctx.cov["samples"]) < 6 and n >= 3:
                 ctx.sample({"vtl": "DS_r <- " + cj["vtl"] + ";", "rows": n, "engine": ea["ds"]["rows"][:3] if ea["ok"] and ea["ds"] else str(ea.get("err"))})
-            d_model = A.compare_one(ea, mo[i])
+            hyp, parsed = mo[i]
+            needs = inv["f"] not in ("rank", "ratio_to_report")
+            if needs and not inv.get("ties"):
+                stats["total_order_hypothesis"]["holds" if hyp is True else "fails"] += 1
+                if hyp is not True:   # the generator promised an order that is total inside every partition
+                    ctx.oblige("K: generated case satisfies the theorems' hypothesis total_order", False, f"DS_r <- {cj['vtl']};")
+            else:
+                stats["total_order_hypothesis"]["not needed (rank, ratio_to_report)"] += 1
+            d_model = A.compare_one(ea, parsed)
             d_perm = None if inv.get("ties") and inv["f"] != "rank" else A.perm_diff(ea, eb)
             if d_model is None and d_perm is None:
                 continue
@@ -150,8 +158,8 @@ def verdict(pool, cj, tag):
         return "harness error: " + er["harness_error"]
     mo = A.eval_groups([g], [ren], tag)[0]
     if g["invs"][0].get("ties") and g["invs"][0]["f"] != "rank":
-        return A.compare_one(er["a"][0], mo[0])
-    return A.perm_diff(er["a"][0], er["b"][0]) or A.compare_one(er["a"][0], mo[0])
+        return A.compare_one(er["a"][0], mo[0][1])
+    return A.perm_diff(er["a"][0], er["b"][0]) or A.compare_one(er["a"][0], mo[0][1])
 
 
 def shrink(pool, cj, tag):
@@ -174,7 +182,7 @@ def run(ctx):
     engine.install(need_parser=True)
     pool = A.EnginePool(workers=8 if quick else 12)
     stats = {"function": {}, "level": {}, "frame": {}, "partition": {}, "order": {}, "rows": {"0": 0, "1-3": 0, "4-12": 0, "13-30": 0},
-             "engine_errors": {}, "disagreements": 0}
+             "engine_errors": {}, "disagreements": 0, "total_order_hypothesis": {"holds": 0, "fails": 0, "not needed (rank, ratio_to_report)": 0}}
     budget = [3]
     try:
         cdir = CORPUS / PID
@@ -191,7 +199,9 @@ def run(ctx):
         groups = corpus + directed + groups          # corpus first
         batches = [groups[i:i + 250] for i in range(0, len(groups), 250)]
         first = pool.submit([A.group_job(g) for g in batches[0]])   # the engine starts on the first batch while the proofs are rebuilt
+        ctx.log(f"{len(groups)} groups generated; first batch submitted to the engine pool")
         ctx.prove(PID)
+        ctx.log("proofs rebuilt")
         for bi, batch in enumerate(batches):
             run_groups(ctx, pool, batch, "c06_k", stats, budget, futs=first if bi == 0 else None)
         observe_no_order_by(ctx, pool)
@@ -232,8 +242,8 @@ def replay(ctx, obj):
         ea, eb = er["a"][0], er["b"][0]
         print("engine   :", ea["ds"] if ea["ok"] else (ea["err"], ea["msg"]))
         print("permuted :", eb["ds"]["rows"] if eb["ok"] and eb["ds"] else (eb.get("err"), eb.get("msg")))
-        print("model    :", A.exprk.model_result(mo[0], None))
-        d1, d2 = A.compare_one(ea, mo[0]), A.perm_diff(ea, eb)
+        print("model    :", A.exprk.model_result(mo[0][1], None), "| total_order:", mo[0][0])
+        d1, d2 = A.compare_one(ea, mo[0][1]), A.perm_diff(ea, eb)
         print("verdict  :", "agree" if (d1 is None and d2 is None) else (d2 or d1))
         return 0 if (d1 is None and d2 is None) else 1
     finally:
